@@ -8,7 +8,7 @@ from .. import calg, jmodel as J
 from ..cskel import Skel, strip_comments
 from ..pymodel import package
 from ..ratemodel import model as ratemodel, SELF
-from ..valueflow import lower, show, simp, walk
+from ..valueflow import Flow, lower, show, simp, subst, walk
 
 EXPLANATION = (
     "From the registration tables Reg(K) (ordered name/symbol/kind/value, extracted from the __init__ chains of the 6 reaction classes, 5 grain "
@@ -20,7 +20,11 @@ EXPLANATION = (
     "R4 no symbol is registered with two different kinds by classes that can be co-present; R5 every template function that pastes rate/ODE/"
     "Jacobian expressions declares params, then deriveds, then the expressions, over a component list that contains the components those "
     "expressions may use, and NaunetData / constants come from the same enumerations; _collect_variable_items merges every component; R6 ODE "
-    "modifier factors of the bundled examples use registered identifiers only.")
+    "modifier factors of the bundled examples use registered identifiers only; R7 a name some texts rely on is registered on every path through "
+    "__init__; R10 a declaration loop declares every enumerated symbol -- no selecting filter / loop condition, and a pruning set handed over by "
+    "the renderer is computed from the FINAL statement list (not before the rate_modifier overrides are written into it); R11 identifiers of the "
+    "text the renderer itself writes around a rate (the temperature window `if (Tgas>=..)`) are registered by every reaction class, and -- the "
+    "thermal functions declaring thermal symbols only -- are unreachable for every ThermalProcess (its window attributes are fixed to -1.0).")
 ASSUMPTIONS = [
     "conformance to the SUNDIALS / Boost API is not decided",
     "identifiers inside user-supplied strings (KROME rate text, user modifiers) are out of scope",
@@ -56,10 +60,42 @@ class Sym:
         self.value_seqs = vlw.seqs if vlw else {}
 
 
-def tables(rm):
-    regs = {}
+class Regs(dict):
+    """{class: [Sym]} plus `names` {class: registry names, whether or not their triple is understood} and `opaque` {classes with a
+    registration whose triple is not understood}: while `opaque` is non-empty "this identifier is declared nowhere" cannot be concluded"""
+
+    def __init__(self):
+        super().__init__()
+        self.names, self.opaque = {}, set()
+
+    def judge(self, ctx, ok, rule, key, where, msg, **kw):
+        # (a fixed IDX_<species> is undefined whatever is registered)
+        if not ok and self.opaque and "names a fixed species" not in msg:
+            ctx.unrec(rule, key, where, f"{msg} -- but registrations of {sorted(self.opaque)} are not understood, so an undeclared identifier cannot be concluded")
+        else:
+            ctx.check(ok, rule, key, where, msg, **kw)
+
+
+def tables(rm, ctx=None):
+    """{class: [Sym]} of the registrations whose (symbol, value, kind) triple is understood; one that is not (the triple comes out
+    of a call the reconstruction cannot follow) is reported as UNRECOGNISED once and left out -- never guessed"""
+    regs = Regs()
     for c in REACTION_CLASSES + GRAIN_CLASSES + ["ThermalProcess"]:
-        regs[c] = [Sym(r) for r in rm.effective_registry(c).values()]
+        regs[c] = []
+        if c != "KROMEReaction" and any(r["op"] == "register" and (r["loops"] or r["name"][0] != "const") for r in rm.registry(c)):
+            # a registration inside a loop that was not unrolled / under a computed name: the set of registered names is not known
+            # (KROME registers the user's @var / @common names that way -- those are out of scope)
+            regs.opaque.add(c)
+        for r in rm.effective_registry(c).values():
+            regs.names.setdefault(c, set()).add(r["name"][1])
+            s = Sym(r)
+            if s.text is None or not isinstance(s.kind, str):
+                regs.opaque.add(c)
+                if ctx is not None and r["cls"] == c:
+                    ctx.unrec("R1", f"{c}.__init__:register({r['name'][1]!r}):triple", (r["file"], r["line"]),
+                              "cannot read the (symbol, value, kind) triple of this registration: which C identifier it declares is unknown")
+                continue
+            regs[c].append(s)
     return regs
 
 
@@ -67,8 +103,19 @@ def declared_everywhere(ctx):
     """C identifiers every generated unit sees: physics prototypes (with definitions) and constant externs."""
     tree = ctx.tree
     ctx.saw(PHYS_H), ctx.saw(CONST_H)
-    protos = set(re.findall(r"\b(\w+)\s*\(", strip_comments(tree.read(PHYS_H))))
-    protos -= {"if", "for", "while", "defined"}
+    # (from the template's TEXT items: what stands inside {% .. %} tags is not C)
+    hitems = J.flatten(tree, PHYS_H, {})
+    protos, conditional = set(), {}
+    for it, stack in J.walk_items(hitems):
+        if it[0] == "text":
+            found = set(re.findall(r"\b(\w+)\s*\(", strip_comments(it[1]))) - {"if", "for", "while", "defined"}
+            protos |= found
+            # (tests about the network; a test on the configuration -- device, method -- selects a build, not a network)
+            tests = [x[1] for x in stack if x[0] in ("if+", "if-") and "network" in J.names_of(x[1])]
+            for p_ in found:
+                if tests:
+                    conditional.setdefault(p_, J.show(tests[-1]))
+    declared_everywhere.conditional = {p_: t for p_, t in conditional.items()}
     sk = Skel(J.flatten(tree, PHYS_C, {}))
     defs = {f.name for f in sk.funcs}
     consts = set(re.findall(r"extern\s+\S+\s+double\s+(\w+)\s*;", J.text_of(J.flatten(tree, CONST_H, {}), lambda it: "SPEC")))
@@ -85,17 +132,38 @@ def idents_of(text):
 def check(ctx):
     rm = ratemodel(ctx.tree)
     pkg = package(ctx.tree)
-    regs = tables(rm)
+    regs = tables(rm, ctx)
     nreg = sum(len(v) for v in regs.values())
     ctx.stats["registered_symbols"] = nreg
     ctx.floor("R2", "registrations", nreg, 120)
     protos, defs, consts, cdefs = declared_everywhere(ctx)
+    phys_text, const_text = strip_comments(ctx.tree.read(PHYS_C)), strip_comments(ctx.tree.read(CONST_C))
     for p in sorted(protos):
-        ctx.check(p in defs, "R2", f"physics prototype {p} has a definition", (PHYS_H, 0), f"{p} is declared in naunet_physics.h and defined in naunet_physics.cpp")
+        # (the name written before a `(` somewhere in the .cpp but not recognised as a function definition: not understood, not missing)
+        if p in defs or not re.search(r"\b" + re.escape(p) + r"\s*\(", phys_text):
+            ctx.check(p in defs, "R2", f"physics prototype {p} has a definition", (PHYS_H, 0), f"{p} is declared in naunet_physics.h and defined in naunet_physics.cpp")
+        else:
+            ctx.unrec("R2", f"physics prototype {p} has a definition", (PHYS_C, 0), f"{p} occurs in naunet_physics.cpp but its definition is not recognised")
     for c in sorted(consts):
         if c == "eb_SPEC" or c.endswith("Table") or "Table" in c:
             continue
-        ctx.check(c in cdefs, "R2", f"constant {c} has a definition", (CONST_H, 0), f"extern {c} is defined in naunet_constants.cpp")
+        if c in cdefs or not re.search(r"\b" + re.escape(c) + r"\b", const_text):
+            ctx.check(c in cdefs, "R2", f"constant {c} has a definition", (CONST_H, 0), f"extern {c} is defined in naunet_constants.cpp")
+        else:
+            ctx.unrec("R2", f"constant {c} has a definition", (CONST_C, 0), f"{c} occurs in naunet_constants.cpp but its definition is not recognised")
+    # a prototype under a `{% if <something about the network> %}` exists in some networks only: whoever registers a text that calls
+    # it does so regardless of that test
+    for p, test in sorted(getattr(declared_everywhere, "conditional", {}).items()):
+        users = []
+        for c2 in REACTION_CLASSES + GRAIN_CLASSES + ["ThermalProcess"]:
+            for label, text, file, line in _texts_of_class(rm, pkg, c2, regs):
+                if re.search(r"\b" + re.escape(p) + r"\s*\(", text):
+                    users.append((f"{c2}: {label}", file, line))
+        if users:
+            ctx.bad("R2", f"physics prototype {p} declared for every network", (PHYS_H, 0), f"{p} is declared only `{{% if {test} %}}`, but {users[0][0]} ({users[0][1]}:{users[0][2]}) "
+                    f"calls it whatever the network contains: undeclared function where the test fails", expected="an unconditional prototype and definition", found=f"{{% if {test} %}}")
+        else:
+            ctx.ok("R2", f"physics prototype {p} declared for every network", (PHYS_H, 0), "conditional, and no registered text calls it")
     universal = None
     for c in REACTION_CLASSES:
         s = {x.text for x in regs[c] if not x.param}
@@ -109,6 +177,7 @@ def check(ctx):
     _r5(ctx, pkg)
     _r6(ctx, pkg, regs, protos, consts, universal)
     _r7(ctx, rm, pkg, regs)
+    _r11(ctx, pkg, regs, protos, consts, universal)
     # the index macros the expressions use are the ones the header defines: IDX_<alias> per species and IDX_ELEM_<element key>
     # per element, the same spelling at definition and use (shared with C09.R4)
     from .c09 import _r4_defs as macro_definitions
@@ -142,19 +211,24 @@ def _r1(ctx, rm, pkg, regs):
     n = 0
     for cls in REACTION_CLASSES + GRAIN_CLASSES + ["ThermalProcess"]:
         ci = pkg.cls(cls)
-        names = {s.name for s in regs[cls]}
         for mname, fn in ci.methods.items():
             for N, line in _symbol_reads(fn, "self"):
                 n += 1
                 # the method is inherited by subclasses: the name must be in their registries too
                 users = [cls] + [c for c in pkg.subclasses(cls) if c in regs]
-                missing = [u for u in users if N not in {s.name for s in regs[u]}]
-                ctx.check(not missing, "R1", f"{cls}.{mname}:self.symbols.{N}", (ci.file, line),
+                missing = [u for u in users if N not in regs.names.get(u, ())]
+                regs.judge(ctx, not missing, "R1", f"{cls}.{mname}:self.symbols.{N}", (ci.file, line),
                           f"`{N}` is registered by {cls}" + (" and its subclasses" if len(users) > 1 else "") if not missing else
                           f"`{N}` is read through self.symbols but not registered by {missing}")
     ctx.floor("R1", "self.symbols reads", n, 55)
     # reac.symbols.N inside grain methods: informational (generation-time AttributeError, not an undeclared C symbol)
-    feas = delegated_types(rm)
+    from ..core import AnalysisError
+    try:
+        feas = delegated_types(rm)
+    except AnalysisError as e:
+        # the code tables only feed the informational notes below
+        ctx.note(f"generation-time refusals not enumerated: {e}")
+        feas = {}
     gmeth = grain_methods(rm)
     notes = []
     for G in GRAIN_CLASSES:
@@ -173,7 +247,7 @@ def _r1(ctx, rm, pkg, regs):
             for f in chain:
                 for N, line in _symbol_reads(f, "reac"):
                     for F, taus in feas.items():
-                        if tau in taus and N not in {s.name for s in regs[F]}:
+                        if tau in taus and N not in regs.names.get(F, ()):
                             notes.append(f"{F} x {G}.{mname} (type {tau}): reac.symbols.{N} is not registered by {F} -> AttributeError at generation time")
     ctx.stats["generation_time_refusals"] = len(notes)
     for s in notes[:12]:
@@ -208,9 +282,17 @@ def grain_methods(rm):
     out = {}
     for v in rm.variants("Grain"):
         if v.kind == "delegate" and v.raw[0] == "meth" and v.raw[1] == SELF:
-            cond, pol = v.conds[-1]
-            if pol and cond[0] == "cmp" and cond[1] == ("Eq",):
-                out[rm.enum_of_ir("Grain", cond[2][1])] = v.raw[2]
+            # the dispatch test of this arm: the innermost positive `<type> == <member>` on its path (tests on the RESULT of the
+            # builder -- `rate is NotImplemented` -- may follow it when the tail of the method was duplicated into the arms)
+            for cond, pol in reversed(v.conds):
+                if pol and cond[0] == "cmp" and cond[1] == ("Eq",) and len(cond[2]) == 2:
+                    try:
+                        tau = rm.enum_of_ir("Grain", cond[2][1])
+                    except Exception:
+                        tau = None
+                    if tau is not None:
+                        out[tau] = v.raw[2]
+                        break
     return out
 
 
@@ -274,10 +356,55 @@ def _texts_of_class(rm, pkg, cls, regs):
     return out
 
 
+_DATA_CALLS = {"str", "float", "int", "round", "abs", "len", "repr", "format", "max", "min"}
+_STR_METHODS = {"lower", "upper", "strip", "lstrip", "rstrip", "replace", "capitalize", "title", "removeprefix", "removesuffix", "format", "get"}
+
+
+def _getter_names(pkg, file):
+    """module-level names bound to operator.attrgetter(..) / itemgetter(..): calling one reads data off its argument"""
+    out = set()
+    for st in pkg.modules[file].body if file in pkg.modules else []:
+        if isinstance(st, ast.Assign) and len(st.targets) == 1 and isinstance(st.targets[0], ast.Name) and isinstance(st.value, ast.Call) \
+                and ast.unparse(st.value.func).split(".")[-1] in ("attrgetter", "itemgetter"):
+            out.add(st.targets[0].id)
+    return out
+
+
+def _opaque_holes(v, surface, getters=()):
+    """holes of a rate template that paste TEXT produced by a call the reconstruction could not follow (a helper that was not
+    inlined, a method of a record): whatever identifiers that text contains were not looked at.  Data holes -- attribute reads,
+    `x or default`, subscripts, str()/float() of data, string methods of a name, the shared surface-rate helper (read on its own) -- are fine."""
+    out = []
+    for ir in list(v.holes.values()) + list(v.seqs.values()):
+        for x in walk(ir):
+            if not (isinstance(x, tuple) and x):
+                continue
+            if x[0] == "unknown":
+                out.append(x)
+            elif x[0] == "call" and len(x) == 4 and not (x[1][0] == "global" and (x[1][1] in _DATA_CALLS or x[1][1] in getters)):
+                out.append(x)
+            elif x[0] == "meth" and len(x) == 5 and not (x[2] in _STR_METHODS or (x[1] == SELF and x[2] == surface)):
+                out.append(x)
+    return out
+
+
 def _r2(ctx, rm, pkg, regs, protos, consts, universal):
     n = 0
     seen = set()
+    from ..ratemodel import surface_helper
+    surface = surface_helper(pkg)
     for cls in REACTION_CLASSES + GRAIN_CLASSES + ["ThermalProcess"]:
+        if cls != "KROMEReaction" and cls != "ThermalProcess":
+            for m in [m for m in pkg.cls(cls).methods if (m == "rateexpr" and cls != "Grain") or m.startswith("rate_") or m == surface]:
+                for v in rm.variants(cls, m):
+                    if v.defined_in != cls:
+                        continue
+                    if v.kind == "text":
+                        for x in _opaque_holes(v, surface, _getter_names(pkg, v.file))[:1]:
+                            ctx.unrec("R2", f"{cls}.{m}:pasted text", (v.file, v.line), f"the rate expression pastes text computed by `{show(x)[:80]}`, which the reconstruction "
+                                      "could not follow: the identifiers in that text are not checked")
+                    elif v.kind not in ("raise", "notimplemented", "delegate"):
+                        ctx.unrec("R2", f"{cls}.{m}:rate text", (v.file, v.line), f"a value returned as rate expression is not understood ({v.kind}): {show(v.raw)[:100] if isinstance(v.raw, tuple) else v.raw}")
         for label, text, file, line in _texts_of_class(rm, pkg, cls, regs):
             try:
                 ids = idents_of(text)
@@ -290,7 +417,7 @@ def _r2(ctx, rm, pkg, regs, protos, consts, universal):
                 seen.add((cls, label, x))
                 n += 1
                 ok, why = classify_ident(x, cls, regs, protos, consts, universal)
-                ctx.check(ok, "R2", f"{label}:{x}", (file, line), why if not ok else f"`{x}`: {why}", found=text[:120] if not ok else None)
+                regs.judge(ctx, ok, "R2", f"{label}:{x}", (file, line), why if not ok else f"`{x}`: {why}", found=text[:120] if not ok else None)
     # thermal process instances
     tp = "naunet/thermalprocess.py"
     ctx.saw(tp)
@@ -300,13 +427,13 @@ def _r2(ctx, rm, pkg, regs, protos, consts, universal):
             text = node.value.args[1].value
             try:
                 ids = idents_of(text)
-            except calg.CParseError as ex:
-                ctx.bad("R2", f"{node.targets[0].id}:syntax", (tp, node.lineno), f"rate text is not a C expression: {ex}")
-                continue
+            except calg.CParseError:
+                # (the small C parser does not read it: the identifiers are still the words of the text)
+                ids = {w: {"var"} for w in re.findall(r"[A-Za-z_]\w*", text)}
             for x in sorted(ids):
                 n += 1
                 ok, why = classify_ident(x, "ThermalProcess", regs, protos, consts, universal)
-                ctx.check(ok, "R2", f"{node.targets[0].id}:{x}", (tp, node.lineno), why, found=text[:100] if not ok else None)
+                regs.judge(ctx, ok, "R2", f"{node.targets[0].id}:{x}", (tp, node.lineno), why, found=text[:100] if not ok else None)
     ctx.floor("R2", "identifier uses", n, 250)
 
 
@@ -402,21 +529,150 @@ SITES = [
 
 
 def _resolved(order, at, e):
-    """`e` with a template variable replaced by the value of the closest `{% set %}` that precedes item `at` in document order
-    (`order`: the items in document order); a name that is never set stays a name."""
-    for _ in range(4):
+    """`e` with a template variable replaced by the value of the closest `{% set %}` (a `{% with %}` binding, a macro parameter)
+    that precedes item `at` in document order (`order`: the items in document order); a value that is itself a name is resolved
+    from where it was bound (`{{ helper(components) }}` binds the parameter `components` to the caller's `components`); a name that is
+    never set stays a name."""
+    idx = next((i for i, it in enumerate(order) if it is at), len(order))
+
+    def binding(name, before):
+        """index of the closest set of `name` before position `before` that is in scope there: the items of a macro expansion that
+        has ended (jmodel brackets one by ("other", "macro-begin:n") / ("other", "macro-end:n")) are skipped as a whole"""
+        i = before - 1
+        while i >= 0:
+            it = order[i]
+            if it[0] == "other" and isinstance(it[1], str) and it[1].startswith("macro-end:"):
+                tag = "macro-begin:" + it[1].split(":", 1)[1]
+                while i >= 0 and not (order[i][0] == "other" and order[i][1] == tag):
+                    i -= 1
+            elif it[0] == "set" and it[1] == name:
+                return i
+            i -= 1
+        return None
+    for _ in range(8):
         if e is None or e[0] != "name":
             break
-        val = None
-        for it in order:
-            if it is at:
-                break
-            if it[0] == "set" and it[1] == e:
-                val = it[2]
-        if val is None:
+        j = binding(e, idx)
+        if j is None:
             break
-        e = val
+        e, idx = order[j][2], j
     return e
+
+
+def _source(order, at, e):
+    """the sequence a loop iterates, by origin: filters stripped and `{% set %}` names followed until neither applies
+    -> (base expression, [filters, innermost first])"""
+    fs = []
+    for _ in range(8):
+        e, f = J.unfilter(e)
+        fs = f + fs
+        r = _resolved(order, at, e)
+        if r == e:
+            break
+        e = r
+    return e, fs
+
+
+def _terms(e):
+    """[`network.<attr>`, ..] of a component list written as a sum of attributes of `network`, else None"""
+    if e is None:
+        return None
+    if e[0] == "bin" and e[1] == "+":
+        a, b = _terms(e[2]), _terms(e[3])
+        return None if a is None or b is None else a + b
+    if e[0] == "attr" and e[1] == ("name", "network") and isinstance(e[2], str):
+        return [e[2]]
+    return None
+
+
+def _covers(ctx, key, where, what, comps, complist):
+    """the component list `comps` a declaration loop enumerates against the list `complist` the expressions need.  VIOLATION only
+    when the list is UNDERSTOOD (a sum of network.<attr>) and lacks a needed component; the needed components in their order, with
+    further ones in between, still declare everything; anything else is not understood."""
+    need, got = _terms(complist), _terms(comps)
+    if comps == complist:
+        ctx.ok("R5", key, where, f"the {what} covers {J.show(complist)}")
+    elif got is None:
+        ctx.unrec("R5", key, where, f"cannot tell which components the {what} enumerates: {J.show(comps) if comps else 'unset'}")
+    elif [x for x in need if x not in got]:
+        ctx.bad("R5", key, where, f"the {what} covers {J.show(complist)}", expected=J.show(complist), found=J.show(comps))
+    elif [x for x in got if x in need] == need:
+        ctx.ok("R5", key, where, f"the {what} covers {J.show(complist)} (and more)")
+    elif "grains" in got and "reactions" in got and got.index("grains") < got.index("reactions"):
+        # the derived quantities of the grain models are written in terms of the reactions' symbols (R3: reactions, then grains)
+        ctx.bad("R5", key, where, f"the {what} enumerates the grains before the reactions (grain quantities use the reactions' symbols)", expected=J.show(complist), found=J.show(comps))
+    else:
+        ctx.unrec("R5", key, where, f"the {what} enumerates the components in another order: {J.show(comps)}")
+
+
+def _first_last(e):
+    """`pair | first` / `pair | last` of a (key, value) pair are its items 0 / 1"""
+    if not isinstance(e, tuple):
+        return e
+    e = tuple(_first_last(x) if isinstance(x, tuple) else x for x in e)
+    if len(e) == 5 and e[0] == "filter" and e[1] in ("first", "last") and not e[3] and not e[4]:
+        return ("item", e[2], ("const", 0 if e[1] == "first" else 1))
+    return e
+
+
+_SELECTING = {"select", "reject", "selectattr", "rejectattr", "slice", "batch", "first", "last", "random"}
+_KEEPING = {"list", "unique"}        # (the enumeration has one item per symbol already)
+
+
+def _r10_pruned(ctx, pkg, key, where, after, test, exprs):
+    """R10 -- a declaration loop declares EVERY item collect_variable_items enumerates, or prunes them by a set of used symbols that
+    was computed from the FINAL statements the same function pastes.  `after`: the filters applied to the enumeration, `test`: the
+    loop's own `if`.  Positive evidence: a built-in selecting filter / loop condition (declarations are dropped whatever the
+    expressions use); a pruning set taken from the statement list BEFORE the renderer's last writes into that list."""
+    rule, key = "R10", f"{key}:every declaration"
+    after = [f for f in after if f[0] not in _KEEPING]
+    if not after and test is None:
+        ctx.ok(rule, key, where, "every enumerated symbol is declared")
+        return
+    sel = [f[0] for f in after if f[0] in _SELECTING]
+    if sel or test is not None:
+        ctx.bad(rule, key, where, "every enumerated symbol is declared", expected="the unfiltered enumeration",
+                found=("filters " + ", ".join(sel)) if sel else f"loop condition `{J.show(test)}`")
+        return
+    # a filter of the package's own: which `ode.<field>` does it receive, and when was that field computed?
+    fields = [a[2] for f in after for a in list(f[1]) + [v for _, v in f[2]] if a[0] == "attr" and a[1] == ("name", "ode")]
+    names = ", ".join(f[0] for f in after)
+    if len(fields) != 1 or "." not in exprs:
+        ctx.unrec(rule, key, where, f"the enumeration of the declarations goes through `{names}`: cannot tell whether a declaration is dropped")
+        return
+    from ..odemodel import model as odemodel
+    from .c02 import dataclass_fields, _bind_args
+    fl = odemodel(ctx.tree).flow
+    call = None
+    for f in fl.facts:
+        if f.kind == "return" and f.value is not None:
+            v = f.value
+            if v[0] == "meth" and v[2] == "ODEContent":
+                call = (("call", None, v[3], v[4]), f.seq)
+            elif v[0] == "call" and ((v[1][0] == "attr" and v[1][2] == "ODEContent") or v[1] == ("global", "ODEContent")):
+                call = (v, f.seq)
+    args = _bind_args(dataclass_fields(pkg, "TemplateLoader.ODEContent"), call[0]) if call else {}
+    dep, stm = args.get(fields[0]), args.get(exprs.split(".", 1)[1])
+    if dep is None or stm is None or simp(stm)[0] != "acc":
+        ctx.unrec(rule, key, where, f"the declarations are pruned by `{names}(ode.{fields[0]})`: cannot trace that set / the pasted statements in _prepare_ode_content")
+        return
+    X = simp(stm)[1]
+    inits = [simp(f.value) for f in fl.facts if f.kind == "init" and f.target == X and f.value is not None]
+    dep = simp(dep)
+    reads = lambda v: any(x == ("acc", X) or x in inits for x in walk(v))
+    # when was the set computed?  at the local assignment that holds it, else where the ODEContent is built
+    binds = [(sq, ln) for nm, lst in fl.assigns.items() for val, loops, guards, ln, sq in lst if simp(val) == dep]
+    if not reads(dep):
+        ctx.unrec(rule, key, where, f"the declarations are pruned by `{names}(ode.{fields[0]})`, a set that is not visibly computed from the statements pasted here ({show(dep)[:80]})")
+        return
+    at = min(binds)[0] if binds else call[1]
+    later = [f for f in fl.facts if f.target == X and f.kind in ("store", "augstore", "append", "mutate", "remove") and f.seq > at]
+    if later:
+        ctx.bad(rule, key, where, f"the declarations are pruned by `{names}(ode.{fields[0]})`, computed" + (f" at line {min(binds)[1]}" if binds else "") +
+                f" from `{X}` BEFORE the statement list receives its final entries (line {later[0].line}: {show(simp(later[0].value))[:60] if later[0].value else later[0].kind}): "
+                "a symbol used only by such an entry is pasted but not declared", expected=f"the set computed from the final `{X}`", found=show(dep)[:100])
+    else:
+        ctx.unrec(rule, key, where, f"the declarations are pruned by `{names}(ode.{fields[0]})` computed from the final statements: whether the pruning keeps every used symbol is not decided")
 
 
 def _r5(ctx, pkg):
@@ -436,20 +692,28 @@ def _r5(ctx, pkg):
                 seq = []      # (kind, components, offset)
                 for it, off in its:
                     if it[0] == "for":
-                        base, fs = J.unfilter(it[2])
-                        if fs and fs[0][0] == "collect_variable_items" and fs[0][1] and fs[0][1][0][0] == "const":
-                            # the component list by ROLE: whatever is piped into collect_variable_items, a `{% set %}` name resolved
-                            seq.append((fs[0][1][0][1], _resolved(sk.marks, it, base), off, it))
-                        elif J.path(_resolved(sk.marks, it, base)) == exprs:
+                        base, fs = _source(sk.marks, it, it[2])
+                        cv = [f for f in fs if f[0] == "collect_variable_items"]
+                        if cv and cv[0][1] and cv[0][1][0][0] == "const":
+                            # the component list by ROLE: whatever is piped into collect_variable_items, `{% set %}` names resolved
+                            seq.append((cv[0][1][0][1], base, off, it))
+                            _r10_pruned(ctx, pkg, f"{key}:{cv[0][1][0][1]}", (rel, it[5]), fs[fs.index(cv[0]) + 1:], it[7], exprs)
+                        elif J.path(base) == exprs:
                             seq.append(("exprs", None, off, it))
                 kinds = [s[0] for s in seq]
-                ok_order = kinds == ["params", "deriveds", "exprs"]
-                ctx.check(ok_order, "R5", f"{key}:order", (rel, seq[0][3][5] if seq else 0),
-                          "parameters are declared, then derived quantities, then the expressions that use them", expected="params, deriveds, exprs", found=str(kinds))
+                where = (rel, seq[0][3][5] if seq else 0)
+                if kinds == ["params", "deriveds", "exprs"]:
+                    ctx.ok("R5", f"{key}:order", where, "parameters are declared, then derived quantities, then the expressions that use them")
+                elif sorted(kinds) == ["deriveds", "exprs", "params"]:
+                    # the three loops are all there and recognised, in a wrong order
+                    ctx.bad("R5", f"{key}:order", where, "parameters are declared, then derived quantities, then the expressions that use them",
+                            expected="params, deriveds, exprs", found=str(kinds))
+                else:
+                    ctx.unrec("R5", f"{key}:order", where, "cannot find exactly one params loop, one deriveds loop and one loop pasting "
+                              f"{exprs} in this function (found {kinds}): the declarations / expressions are emitted in a way that is not understood")
                 for kind, comps, off, it in seq:
                     if kind in ("params", "deriveds"):
-                        ctx.check(comps == complist, "R5", f"{key}:{kind}-components", (rel, it[5]),
-                                  f"the {kind} loop covers {J.show(complist)}", expected=J.show(complist), found=J.show(comps) if comps else "unset")
+                        _covers(ctx, f"{key}:{kind}-components", (rel, it[5]), f"{kind} loop", comps, complist)
                         # body: `realtype key = u_data->key;` / `realtype key = value;`
                         tv = it[1]
                         # (key, value) of the enumeration: the two loop targets, or item 0 / 1 of a single target
@@ -457,19 +721,24 @@ def _r5(ctx, pkg):
                             kx, vx = {tv[1][0]}, {tv[1][1]}
                         else:
                             kx, vx = {("item", tv, ("const", 0))}, {("item", tv, ("const", 1))}
-                        body = J.inline_sets(it[3])          # `{% set name = key %}` / macro parameters read as what they stand for
-                        outs = [x[1] for x in body if x[0] == "out"]
-                        txt = re.sub(r"\s+", " ", "".join(x[1] for x in body if x[0] == "text"))
-                        shape = len(outs) == 2 and not any(x[0] in ("for", "if") for x in body) and \
-                            re.search(r"(realtype|double)\s+=\s+\w+->;" if kind == "params" else r"(realtype|double)\s+=\s*;", txt) is not None
+                        # what one iteration prints, however it is assembled (text + outputs, `~`, format, set names, macro parameters)
+                        pieces = J.squeeze(J.printed(ctx.tree, list(it[3]), {}))
+                        outs = [_first_last(x[1]) for x in pieces if x[0] == "val"]
+                        txt = "".join(x[1] if x[0] == "lit" else "" for x in pieces)
+                        shape = len(outs) == 2 and all(x[0] in ("lit", "val") for x in pieces) and \
+                            re.fullmatch(r"(realtype|double)\s*=\s*\w+->\s*;" if kind == "params" else r"(realtype|double)\s*=\s*;", txt.strip()) is not None
                         if kind == "params":
                             good = shape and outs[0] == outs[1] and outs[0] in kx
                         else:
                             good = shape and outs[0] in kx and outs[1] in vx
                         dkey = f"{key}:{kind}-declaration"
                         dmsg = "each symbol is declared once as a local of this function from the enumeration's own key" + ("" if kind == "params" else " and value")
-                        if good or shape:
-                            ctx.check(good, "R5", dkey, (rel, it[5]), dmsg, found=f"{[J.show(o) for o in outs]} in {txt.strip()[:60]!r}")
+                        # wrong = the declaration is understood and pairs the wrong parts of the enumeration's items
+                        own = kx | vx
+                        if good:
+                            ctx.ok("R5", dkey, (rel, it[5]), dmsg)
+                        elif shape and all(o in own for o in outs):
+                            ctx.bad("R5", dkey, (rel, it[5]), dmsg, found=f"{[J.show(o) for o in outs]} in {txt.strip()[:60]!r}")
                         else:
                             ctx.unrec("R5", dkey, (rel, it[5]), f"the body of the {kind} loop is not one declaration `type <key> = ...;`: {[J.show(o) for o in outs]} in {txt.strip()[:60]!r}")
     ctx.floor("R5", "expression-pasting functions", n, 14)
@@ -481,109 +750,313 @@ def _r5(ctx, pkg):
         hit = False
         for it in order:
             if it[0] == "for":
-                base, fs = J.unfilter(it[2])
-                if fs and fs[0][0] == "collect_variable_items" and fs[0][1] and fs[0][1][0] == ("const", kind):
+                cur, fs = _source(order, it, it[2])
+                cv = [f for f in fs if f[0] == "collect_variable_items"]
+                if cv and cv[0][1] and cv[0][1][0] == ("const", kind):
                     hit = True
-                    cur = _resolved(order, it, base)
-                    ctx.check(cur == RCHC, "R5", f"{rel.split('/')[-1]}:{kind}-components", (rel, it[5]),
-                              f"{kind} are collected over reactions + grains + heating + cooling", expected=J.show(RCHC), found=J.show(cur) if cur else "unset")
+                    _covers(ctx, f"{rel.split('/')[-1]}:{kind}-components", (rel, it[5]), f"enumeration of the {kind}", cur, RCHC)
         if not hit:
             ctx.missing("R5", f"{rel.split('/')[-1]}:{kind}", (rel, 0), f"no collect_variable_items('{kind}') loop found")
     # _collect_variable_items visits every component
-    fn = pkg.func(UTIL, "_collect_variable_items")
-    ctx.saw(UTIL, "_collect_variable_items")
-    from ..valueflow import Flow
-    fl = Flow(fn, UTIL)
-    # by role: the dictionary whose .items() is returned
-    acc = None
-    for f in fl.facts:
-        if f.kind == "return" and f.value:
-            v = simp(f.value)
-            if v[0] == "meth" and v[2] == "items" and v[1][0] == "acc":
-                acc = v[1][1]
-            elif v[0] == "acc":
-                acc = v[1]
-    st = [f for f in fl.facts if f.kind == "store" and f.target == acc]
-    ok = False
-    if len(st) == 1 and len(st[0].loops) == 2 and not st[0].guards:
-        l1, l2 = st[0].loops
-        ok = simp(l1.iter) == ("param", "complist") and simp(l2.iter)[0] == "meth" and simp(l2.iter)[2] == "items" and \
-            simp(l2.iter)[1] == ("call", ("global", "getattr"), (("elem", ("param", "complist"), l1.id), ("param", "var_type")), ()) and \
-            simp(st[0].index) == ("key", simp(l2.iter)[1], l2.id) and simp(st[0].value) == ("val", simp(l2.iter)[1], l2.id)
-    if not ok:
-        # equivalent spelling: variables.update(getattr(comp, var_type)[.items()]) once per component
-        up = [f for f in fl.facts if f.kind == "mutate" and f.target == acc and f.op == "update"]
-        if len(up) == 1 and len(up[0].loops) == 1 and not up[0].guards and not st:
-            l1 = up[0].loops[0]
-            g = ("call", ("global", "getattr"), (("elem", ("param", "complist"), l1.id), ("param", "var_type")), ())
-            a = simp(up[0].value) if up[0].value else None
-            ok = simp(l1.iter) == ("param", "complist") and a in (g, ("meth", g, "items", (), ()))
-            st = up
-    if not ok and not st:
-        # the merge as ONE expression: dict / OrderedDict over the chained items of every component's mapping, or a dict
-        # comprehension with the two loops as its generators
-        rets = [simp(f.value) for f in fl.facts if f.kind == "return" and f.value is not None]
-        ok = len(rets) == 1 and _merged_expression(rets[0])
-    brk = [f for f in fl.facts if f.kind in ("break", "continue")]
-    ctx.check(ok and not brk, "R5", "_collect_variable_items:every component", (UTIL, fn.lineno),
-              "every item of every component's params/deriveds/constants is merged (keyed by symbol), unconditionally",
-              found="; ".join(f"{f.kind}@{f.line} guards={[show(g)[:40] for g, _ in f.guards]}" for f in st + brk))
+    _collect_rule(ctx, pkg)
     # Component.params/deriveds/constants filter by the right kind
     comp = pkg.cls("Component")
+    CF = "naunet/component.py"
+    # module-level `NAME = attrgetter("a", "b")` bound once: NAME(x) is (x.a, x.b)
+    getters, count = {}, {}
+    for nd in ast.walk(pkg.modules[CF]):
+        if isinstance(nd, ast.Name) and isinstance(nd.ctx, (ast.Store, ast.Del)):
+            count[nd.id] = count.get(nd.id, 0) + 1
+    for st_ in pkg.modules[CF].body:
+        if isinstance(st_, ast.Assign) and len(st_.targets) == 1 and isinstance(st_.targets[0], ast.Name) and count.get(st_.targets[0].id) == 1 \
+                and isinstance(st_.value, ast.Call) and ast.unparse(st_.value.func) in ("attrgetter", "operator.attrgetter") and st_.value.args and not st_.value.keywords \
+                and all(isinstance(a, ast.Constant) and isinstance(a.value, str) and a.value.isidentifier() for a in st_.value.args):
+            getters[st_.targets[0].id] = tuple(a.value for a in st_.value.args)
+
+    def got(x):
+        """applications of those getters written out"""
+        if not isinstance(x, tuple):
+            return x
+        x = tuple(got(y) if isinstance(y, tuple) else y for y in x)
+        if len(x) == 4 and x[0] == "call" and x[1][0] == "global" and x[1][1] in getters and len(x[2]) == 1 and not x[3]:
+            names = getters[x[1][1]]
+            return ("attr", x[2][0], names[0]) if len(names) == 1 else ("tuple", tuple(("attr", x[2][0], nm) for nm in names))
+        return x
     for prop, kind in (("params", "param"), ("deriveds", "derived"), ("constants", "constant")):
         f = comp.methods.get(prop)
-        good = False
-        if f is not None:
-            def _res(name, _pkg=pkg):
-                _, g_ = _pkg.resolve("Component", name)
-                return g_ if name.startswith("_") and not name.startswith("__") else None
-            for rf in Flow(f, "naunet/component.py", resolver=_res).facts:
-                if rf.kind == "return" and rf.value:
-                    v = simp(rf.value)
-                    # whatever the nesting / spelling (comprehension over .items() or .values(), a filtering helper, dict(),
-                    # OrderedDict(), a folded loop): pairs (x.symbol, x.value), one filter x.type == VariableType.<kind>,
-                    # drawn from self._symbols
-                    pairs = [x for x in walk(v) if isinstance(x, tuple) and len(x) == 2 and x[0] == "tuple" and len(x[1]) == 2
-                             and x[1][0][0] == "attr" and x[1][0][2] == "symbol" and x[1][1][0] == "attr" and x[1][1][2] == "value" and x[1][0][1] == x[1][1][1]]
-                    tests = [x for x in walk(v) if isinstance(x, tuple) and len(x) == 3 and x[0] == "cmp"]
-                    kind_tests = [x for x in tests if x[1] == ("Eq",) and x[2][0][0] == "attr" and x[2][0][2] == "type" and x[2][1] == ("attr", ("global", "VariableType"), kind)]
-                    src = any(isinstance(x, tuple) and len(x) == 5 and x[0] == "meth" and x[1] == ("attr", SELF, "_symbols") and x[2] in ("items", "values") for x in walk(v))
-                    good = len(pairs) >= 1 and len(kind_tests) >= 1 and len(tests) == len(kind_tests) and src
-        ctx.check(good, "R5", f"Component.{prop}", ("naunet/component.py", f.lineno if f else 0),
-                  f"Component.{prop} maps symbol -> value for the symbols of kind `{kind}`")
+        if f is None:
+            ctx.missing("R5", f"Component.{prop}", (CF, 0), "property vanished")
+            continue
+        good, wrong, seen_ = False, [], []
+
+        def _res(name, _pkg=pkg):
+            _, g_ = _pkg.resolve("Component", name)
+            return g_ if name.startswith("_") and not name.startswith("__") else None
+        for rf in Flow(f, CF, resolver=_res).facts:
+            if rf.kind == "return" and rf.value:
+                v = got(simp(rf.value))
+                seen_.append(show(v)[:140])
+                # whatever the nesting / spelling (comprehension over .items() or .values(), a filtering helper, dict(),
+                # OrderedDict(), a folded loop, map/filter, attrgetter): pairs (x.symbol, x.value), one filter x.type == VariableType.<kind>,
+                # drawn from self._symbols
+                pairs = [x for x in walk(v) if isinstance(x, tuple) and len(x) == 2 and x[0] == "tuple" and len(x[1]) == 2
+                         and x[1][0][0] == "attr" and x[1][0][2] == "symbol" and x[1][1][0] == "attr" and x[1][1][2] == "value" and x[1][0][1] == x[1][1][1]]
+                tests = [x for x in walk(v) if isinstance(x, tuple) and len(x) == 3 and x[0] == "cmp"]
+                type_tests = [x for x in tests if x[1] == ("Eq",) and x[2][0][0] == "attr" and x[2][0][2] == "type" and x[2][1][0] == "attr" and x[2][1][1] == ("global", "VariableType")]
+                kind_tests = [x for x in type_tests if x[2][1][2] == kind]
+                src = any(isinstance(x, tuple) and len(x) == 5 and x[0] == "meth" and x[1] == ("attr", SELF, "_symbols") and x[2] in ("items", "values") for x in walk(v))
+                good = len(pairs) >= 1 and len(kind_tests) >= 1 and len(tests) == len(kind_tests) and src
+                # understood and wrong: the selection tests the variable's type against ANOTHER kind, or has a second condition
+                if pairs and src and type_tests and len(type_tests) != len(kind_tests):
+                    wrong.append(f"selects the variables of kind {sorted({x[2][1][2] for x in type_tests} - {kind})}")
+                elif pairs and src and kind_tests and len(tests) > len(kind_tests):
+                    wrong.append("the selection has a further condition: " + "; ".join(show(x)[:60] for x in tests if x not in kind_tests))
+                elif pairs and src and not tests:
+                    wrong.append("no selection by the variable's type")
+                # the pairs come from a second, per-kind table `self.T[VariableType.<kind>]` kept next to the registry
+                idx = [x for x in walk(v) if isinstance(x, tuple) and len(x) == 3 and x[0] == "sub" and x[1][0] == "attr" and x[1][1] == SELF and x[1][2] != "_symbols"
+                       and x[2][0] == "attr" and x[2][1] == ("global", "VariableType")]
+                if pairs and not src and not tests and len(idx) == 1:
+                    T, used = idx[0][1][2], idx[0][2][2]
+                    if used != kind:
+                        wrong.append(f"reads the `{used}` entries of self.{T}")
+                    else:
+                        why = _stale_index(pkg, T)
+                        if why:
+                            wrong.append(why)
+        msg = f"Component.{prop} maps symbol -> value for the symbols of kind `{kind}`"
+        if good:
+            ctx.ok("R5", f"Component.{prop}", (CF, f.lineno), msg)
+        elif wrong:
+            ctx.bad("R5", f"Component.{prop}", (CF, f.lineno), msg, found="; ".join(wrong))
+        else:
+            ctx.unrec("R5", f"Component.{prop}", (CF, f.lineno), f"cannot see which registered variables Component.{prop} returns: {'; '.join(seen_) or 'no return'}")
 
 
-def _merged_expression(v) -> bool:
-    """is `v` (the items of) a dictionary that merges, in order and unfiltered, `getattr(comp, var_type)` of EVERY comp in
-    `complist`?   dict(chain.from_iterable(getattr(c, var_type).items() for c in complist)),  chain(*[..]),
-    {k: x for c in complist for k, x in getattr(c, var_type).items()}  -- with or without the final .items()"""
-    COMPS, VT = ("param", "complist"), ("param", "var_type")
+def _stale_index(pkg, T):
+    """Component keeps a per-kind table self.T next to the registry self._symbols.  `register` may OVERWRITE a name (force_overwrite)
+    with a variable of another kind: unless the name's previous entry is removed from T, the symbol stays listed under its old kind as
+    well and is declared twice (as parameter and as derived quantity).  -> the positive evidence (register writes T and never removes
+    from it) as a sentence, or None when register does remove entries / is not understood."""
+    comp = pkg.cls("Component")
+    reg = comp.methods.get("register")
+    if reg is None:
+        return None
+    scope, todo = [], [reg]
+    while todo:
+        f = todo.pop()
+        if any(f is g for g in scope):
+            continue
+        scope.append(f)
+        for c in ast.walk(f):
+            if isinstance(c, ast.Call) and isinstance(c.func, ast.Attribute) and isinstance(c.func.value, ast.Name) and c.func.value.id == "self" and c.func.attr in comp.methods \
+                    and c.func.attr != "register":
+                todo.append(comp.methods[c.func.attr])
+    on_T = lambda e: any(isinstance(x, ast.Attribute) and x.attr == T and isinstance(x.value, ast.Name) and x.value.id == "self" for x in ast.walk(e))
+    writes = [n for f in scope for n in ast.walk(f) if isinstance(n, ast.Subscript) and isinstance(n.ctx, ast.Store) and on_T(n.value)]
+    removes = [n for f in scope for n in ast.walk(f) if (isinstance(n, ast.Delete) and any(on_T(t) for t in n.targets))
+               or (isinstance(n, ast.Call) and isinstance(n.func, ast.Attribute) and n.func.attr in ("pop", "popitem", "clear", "discard", "remove") and on_T(n.func.value))
+               or (isinstance(n, ast.Assign) and any(isinstance(t, ast.Attribute) and t.attr == T for t in n.targets))]
+    overwrites = any(isinstance(n, ast.arg) and n.arg == "force_overwrite" for n in ast.walk(reg))
+    if writes and not removes and overwrites:
+        return (f"the per-kind table self.{T} is filled by register() (line {writes[0].lineno}) but an overwrite with force_overwrite never removes the name's previous entry: a symbol "
+                "re-registered with another kind stays listed under the old kind too and is declared twice")
+    return None
+
+
+def _generator_as_expression(fn):
+    """A generator helper whose body is one nest of `for` / `if` statements around a single `yield E` or `yield from E` returns --
+    as far as the sequence of produced values goes -- the generator expression `(E for .. if ..)` / `chain.from_iterable(E for ..)`:
+    -> a copy of the function with that `return`, or None when the function is not of that shape."""
+    import copy
+    body = [st for st in fn.body if not (isinstance(st, ast.Expr) and isinstance(st.value, ast.Constant))]
+    if len(body) != 1 or sum(isinstance(n, (ast.Yield, ast.YieldFrom)) for n in ast.walk(fn)) != 1 or any(isinstance(n, ast.Return) for n in ast.walk(fn)):
+        return None
+    gens, st = [], body[0]
+    while True:
+        if isinstance(st, ast.For) and not st.orelse and len(st.body) == 1:
+            gens.append(ast.comprehension(target=copy.deepcopy(st.target), iter=copy.deepcopy(st.iter), ifs=[], is_async=0))
+            for n in ast.walk(gens[-1].target):
+                if hasattr(n, "ctx"):
+                    n.ctx = ast.Store()
+            st = st.body[0]
+        elif isinstance(st, ast.If) and not st.orelse and len(st.body) == 1 and gens:
+            gens[-1].ifs.append(copy.deepcopy(st.test))
+            st = st.body[0]
+        else:
+            break
+    if not (isinstance(st, ast.Expr) and isinstance(st.value, (ast.Yield, ast.YieldFrom)) and st.value.value is not None):
+        return None
+    y = st.value
+    if isinstance(y, ast.Yield):
+        if not gens:
+            return None
+        val = ast.GeneratorExp(elt=copy.deepcopy(y.value), generators=gens)
+    elif gens:
+        val = ast.Call(func=ast.Attribute(value=ast.Name(id="chain", ctx=ast.Load()), attr="from_iterable", ctx=ast.Load()),
+                       args=[ast.GeneratorExp(elt=copy.deepcopy(y.value), generators=gens)], keywords=[])
+    else:
+        val = copy.deepcopy(y.value)
+    new = copy.copy(fn)
+    new.body = [ast.copy_location(ast.Return(value=val), body[0])]
+    return ast.fix_missing_locations(new)
+
+
+_CHAIN = (("global", "chain"), ("attr", ("global", "itertools"), "chain"))
+_DICTS = (("global", "dict"), ("global", "OrderedDict"), ("attr", ("global", "collections"), "OrderedDict"))
+
+
+def _pair_stream(v):
+    """The sequence of (key, value) pairs an expression produces, as ONE nest of generators:
+         ([(variable, iterable, (filters..)), ..], mapping)     the items of `mapping`, for every binding of the generators in order
+    whatever the spelling: `M.items()`; `(E for x in S)` / `[..]` whose element is a pair stream or the pair `(k, v)` of a last
+    generator `for k, v in M.items()`; `chain.from_iterable(<generator of pair streams>)` / `chain(*[..])`; a generator over another
+    generator (`f(x) for x in (g(y) for y in S)` is `f(g(y)) for y in S`).  None when the expression is not understood."""
+    from ..valueflow import subst
     if v[0] == "meth" and v[2] == "items" and not v[3] and not v[4]:
-        v = v[1]
+        return [], v[1]
+    if v[0] == "meth" and v[1] in _CHAIN and v[2] == "from_iterable" and len(v[3]) == 1 and not v[4]:
+        x = v[3][0]
+    elif v[0] == "call" and v[1] in _CHAIN and len(v[2]) == 1 and v[2][0][0] == "star" and not v[3]:
+        x = v[2][0][1]
+    elif v[0] == "comp" and v[1] in ("gen", "list") and v[2][0] == "tuple" and len(v[2][1]) == 2 and v[3]:
+        # (k, v) for .. for k, v in M.items()
+        tg, it, ifs = v[3][-1]
+        if tg is not None and tg[0] == "tuple" and tuple(tg[1]) == tuple(v[2][1]) and not ifs:
+            inner = _pair_stream(it)
+            g_ = _gens(v[3][:-1] + ((tg, it, ifs),))
+            if g_ is not None:
+                inner = _pair_stream(g_[0][-1][1])
+                if inner is not None and not inner[0]:
+                    return g_[0][:-1], inner[1]
+        return None
+    else:
+        return None
+    # a sequence of pair streams, chained
+    if x[0] == "comp" and x[1] in ("gen", "list"):
+        g_ = _gens(x[3])
+        if g_ is None:
+            return None
+        inner = _pair_stream(subst(x[2], g_[1]) if g_[1] else x[2])
+        if inner is None:
+            return None
+        return g_[0] + inner[0], inner[1]
+    return None
 
-    def mapping_of(x, bv):
-        """x is getattr(bv, var_type)[.items()]"""
-        if x[0] == "meth" and x[2] == "items" and not x[3] and not x[4]:
-            x = x[1]
-        return x == ("call", ("global", "getattr"), (bv, VT), ())
-    is_chain = lambda f: f == ("global", "chain") or f == ("attr", ("global", "itertools"), "chain")
-    if v[0] == "call" and (v[1] in (("global", "dict"), ("global", "OrderedDict")) or v[1] == ("attr", ("global", "collections"), "OrderedDict")) \
-            and len(v[2]) == 1 and not v[3]:
-        x = v[2][0]
-        g = None
-        if x[0] == "meth" and is_chain(x[1]) and x[2] == "from_iterable" and len(x[3]) == 1 and not x[4]:
-            g = x[3][0]
-        elif x[0] == "call" and is_chain(x[1]) and len(x[2]) == 1 and x[2][0][0] == "star" and not x[3]:
-            g = x[2][0][1]
-        if g is not None and g[0] == "comp" and g[1] in ("gen", "list") and len(g[3]) == 1:
-            tg, it, ifs = g[3][0]
-            return tg is not None and tg[0] == "bv" and it == COMPS and not ifs and mapping_of(g[2], tg)
+
+def _gens(gs):
+    """generators of a comprehension with a generator over another one-generator comprehension composed away:
+    `for x in (g(y) for y in S [if p(y)])` binds x := g(y) under `for y in S [if p(y)]`"""
+    from ..valueflow import subst
+    out, env = [], {}
+    for tg, it, ifs in gs:
+        it = subst(it, env) if env else it
+        ifs = tuple(subst(c, env) for c in ifs) if env else tuple(ifs)
+        if tg is None or tg[0] != "bv":
+            if tg is not None and tg[0] == "tuple" and not ifs and (tg, it, ifs) == tuple(gs[-1]):
+                out.append((tg, it, ifs))         # the destructuring last generator `for k, v in ..` (read by the caller)
+                continue
+            return None
+        if it[0] == "comp" and it[1] in ("gen", "list") and len(it[3]) == 1 and it[3][0][0] is not None and it[3][0][0][0] == "bv":
+            t2, i2, f2 = it[3][0]
+            out.append((t2, i2, tuple(f2)))
+            env[tg] = it[2]
+            if ifs:
+                out[-1] = (t2, i2, tuple(f2) + ifs)
+        else:
+            out.append((tg, it, ifs))
+    return out, env
+
+
+def _collect_rule(ctx, pkg):
+    """utilities._collect_variable_items(components, kind): the items of ONE dictionary that merges, in order and unfiltered,
+    `getattr(c, kind)` of EVERY c in `components` -- as nested loops storing / updating, or as one expression (dict / OrderedDict
+    over chained items, a dict comprehension, generator helpers of the module).  The two parameters are taken by POSITION."""
+    from ..valueflow import Flow, subst
+    fn = pkg.func(UTIL, "_collect_variable_items")
+    ctx.saw(UTIL, "_collect_variable_items")
+    key, where = "_collect_variable_items:every component", (UTIL, fn.lineno)
+    msg = "every item of every component's params/deriveds/constants is merged (keyed by symbol), unconditionally"
+    ps = [a.arg for a in fn.args.args]
+    if len(ps) != 2 or fn.args.vararg or fn.args.kwarg:
+        ctx.unrec("R5", key, where, f"the filter no longer takes (components, kind): {ps}")
+        return
+    COMPS, VT = ("param", ps[0]), ("param", ps[1])
+
+    def helper(name):
+        g = pkg.functions.get((UTIL, name))
+        if g is None or g is fn:
+            return None
+        if any(isinstance(n, (ast.Yield, ast.YieldFrom)) for n in ast.walk(g)):
+            return _generator_as_expression(g)
+        return g
+    fl = Flow(fn, UTIL, func_resolver=helper)
+    rets = [simp(f.value) for f in fl.facts if f.kind == "return" and f.value is not None]
+    evidence, ok = [], False
+    # by role: the dictionary whose .items() is returned
+    acc = None
+    for v in rets:
+        if v[0] == "meth" and v[2] == "items" and v[1][0] == "acc":
+            acc = v[1][1]
+        elif v[0] == "acc":
+            acc = v[1]
+
+    def domain(d, what):
+        """is the sequence the outer loop visits `components` itself?  a slice / selection of it is positive evidence"""
+        if d == COMPS:
+            return True
+        if d[0] == "sub" and d[1] == COMPS and d[2][0] == "slice":
+            evidence.append(f"{what} visits only a slice of `{ps[0]}`: {show(d)[:60]}")
+        elif d[0] == "comp" and len(d[3]) == 1 and d[3][0][1] == COMPS and d[3][0][2] and d[2] == d[3][0][0]:
+            evidence.append(f"{what} visits a filtered selection of `{ps[0]}`: {show(d)[:80]}")
+        elif d[0] == "call" and d[1] == ("global", "filter") and len(d[2]) == 2 and d[2][1] == COMPS:
+            evidence.append(f"{what} visits a filtered selection of `{ps[0]}`: {show(d)[:80]}")
         return False
-    if v[0] == "comp" and v[1] == "dict" and len(v[3]) == 2:
-        (t1, i1, f1), (t2, i2, f2) = v[3]
-        return t1 is not None and t1[0] == "bv" and i1 == COMPS and not f1 and not f2 and i2[0] == "meth" and i2[2] == "items" and mapping_of(i2, t1) \
-            and t2 is not None and t2[0] == "tuple" and len(t2[1]) == 2 and v[2] == ("tuple", tuple(t2[1]))
-    return False
+    if acc is not None:
+        st = [f for f in fl.facts if f.kind == "store" and f.target == acc]
+        up = [f for f in fl.facts if f.kind == "mutate" and f.target == acc and f.op == "update"]
+        brk = [f for f in fl.facts if f.kind in ("break", "continue") and f.loops]
+        for f in st + up:
+            if f.guards:
+                evidence.append(f"the merge at line {f.line} happens only under {[show(g)[:50] for g, _ in f.guards]}")
+        for f in brk:
+            evidence.append(f"`{f.kind}` at line {f.line} skips components / items" + (f" when {[show(g)[:50] for g, _ in f.guards]}" if f.guards else ""))
+        if len(st) == 1 and not up and len(st[0].loops) == 2:
+            l1, l2 = st[0].loops
+            g = ("call", ("global", "getattr"), (("elem", COMPS, l1.id), VT), ())
+            i2 = simp(l2.iter)
+            ok = domain(simp(l1.iter), "the loop") and i2 == ("meth", g, "items", (), ()) and \
+                simp(st[0].index) == ("key", g, l2.id) and simp(st[0].value) == ("val", g, l2.id)
+        elif len(up) == 1 and not st and len(up[0].loops) == 1:
+            # variables.update(getattr(comp, kind)[.items()]) once per component
+            l1 = up[0].loops[0]
+            g = ("call", ("global", "getattr"), (("elem", COMPS, l1.id), VT), ())
+            a = simp(up[0].value) if up[0].value else None
+            ok = domain(simp(l1.iter), "the loop") and a in (g, ("meth", g, "items", (), ()))
+    elif len(rets) == 1:
+        # the merge as ONE expression
+        v = rets[0]
+        if v[0] == "meth" and v[2] == "items" and not v[3] and not v[4]:
+            v = v[1]
+        ps_ = None
+        if v[0] == "call" and v[1] in _DICTS and len(v[2]) == 1 and not v[3]:
+            ps_ = _pair_stream(v[2][0])
+        elif v[0] == "comp" and v[1] == "dict" and v[2][0] == "tuple" and len(v[2][1]) == 2:
+            ps_ = _pair_stream(("comp", "gen", v[2], v[3]))
+        if ps_ is not None:
+            gens, mapping = ps_
+            for tg, it, ifs in gens:
+                if ifs:
+                    evidence.append(f"components / items are filtered: if {'; '.join(show(c)[:50] for c in ifs)}")
+            if len(gens) == 1:
+                tg, it, ifs = gens[0]
+                ok = domain(it, "the expression") and not ifs and mapping == ("call", ("global", "getattr"), (tg, VT), ())
+    if ok and not evidence:
+        ctx.ok("R5", key, where, msg)
+    elif evidence:
+        ctx.bad("R5", key, where, msg, found="; ".join(evidence)[:300])
+    else:
+        ctx.unrec("R5", key, where, "cannot see how the components' mappings are merged: " + "; ".join(show(v)[:120] for v in rets)[:300])
 
 
 # ------------------------------------------------------------------ R6
@@ -621,13 +1094,258 @@ def _r6(ctx, pkg, regs, protos, consts, universal):
                 n += 1
                 try:
                     ids = set(idents_of(fac))
-                except calg.CParseError as ex:
-                    ctx.bad("R6", f"{f.split('/')[-2]}:{spec}:{fac}", (f, 0), f"modifier factor is not a C expression: {ex}")
-                    continue
+                except calg.CParseError:
+                    ids = set(re.findall(r"[A-Za-z_]\w*", fac))
                 bad = [x for x in ids if x not in avail and x not in CMATH and x not in protos and x not in consts]
-                ctx.check(not bad, "R6", f"{f.split('/')[-2]}:{spec}:{fac}", (f, 0),
+                regs.judge(ctx, not bad, "R6", f"{f.split('/')[-2]}:{spec}:{fac}", (f, 0),
                           f"factor uses symbols registered by {classes + ([g] if g else [])}" if not bad else f"{bad} not registered by the example's format/grain classes {classes + [g]}")
     ctx.floor("R6", "example modifier factors", n, 4)
+
+
+# ------------------------------------------------------------------ R11  text the renderer itself writes around a rate
+
+TLOADER = "naunet/templateloader.py"
+TPROC = "naunet/thermalprocess.py"
+_C_WORDS = {"if", "else"}
+
+
+def _tri(test, attrs):
+    """three-valued truth of a Python test under known attribute values {attr name: constant} of the object it inspects"""
+    if isinstance(test, ast.Constant):
+        return bool(test.value)
+    if isinstance(test, ast.Attribute) and test.attr in attrs:
+        return bool(attrs[test.attr])
+    if isinstance(test, ast.UnaryOp) and isinstance(test.op, ast.Not):
+        v = _tri(test.operand, attrs)
+        return None if v is None else not v
+    if isinstance(test, ast.BoolOp):
+        vs = [_tri(x, attrs) for x in test.values]
+        if isinstance(test.op, ast.And):
+            return False if False in vs else (None if None in vs else True)
+        return True if True in vs else (None if None in vs else False)
+    if isinstance(test, ast.Compare) and len(test.ops) == 1:
+        def val(e):
+            if isinstance(e, ast.Constant):
+                return e.value
+            if isinstance(e, ast.UnaryOp) and isinstance(e.op, ast.USub) and isinstance(e.operand, ast.Constant):
+                return -e.operand.value
+            if isinstance(e, ast.Attribute) and e.attr in attrs:
+                return attrs[e.attr]
+            return _tri
+        a, b = val(test.left), val(test.comparators[0])
+        if a is _tri or b is _tri:
+            return None
+        try:
+            return {ast.Gt: lambda: a > b, ast.GtE: lambda: a >= b, ast.Lt: lambda: a < b, ast.LtE: lambda: a <= b, ast.Eq: lambda: a == b, ast.NotEq: lambda: a != b,
+                    ast.Is: lambda: a is b, ast.IsNot: lambda: a is not b}[type(test.ops[0])]()
+        except (KeyError, TypeError):
+            return None
+    return None
+
+
+def _r11(ctx, pkg, regs, protos, consts, universal):
+    """The renderer (`_assign_rates` and what it calls) writes C text of its own around each rate expression -- today the temperature
+    window `if (Tgas>=.. && Tgas<..) { .. }`.  Those statements are pasted into EvalRates (reactions: the identifier must be one every
+    reaction class registers) AND into EvalHeatingRates / EvalCoolingRates, which declare the symbols of the thermal processes only: an
+    identifier of the renderer's own text that ThermalProcess does not register must be unreachable for a thermal process, i.e. sit under
+    a condition on an attribute that every ThermalProcess instance fixes to a falsifying constant."""
+    tl = pkg.cls("TemplateLoader")
+    root = tl.methods.get("_assign_rates")
+    if root is None:
+        ctx.missing("R11", "_assign_rates", (TLOADER, 0), "TemplateLoader._assign_rates vanished")
+        return
+    ctx.saw(TLOADER, "TemplateLoader._assign_rates")
+    mod = pkg.modules[TLOADER]
+    mclasses = {c.name: c for c in mod.body if isinstance(c, ast.ClassDef)}
+    # functions reachable from _assign_rates inside the module (methods through self / cls / the class name, module functions, the
+    # methods of module classes it instantiates): more scope only means more text to account for
+    import copy
+    from ..normalize import _Subst, const_getattr
+
+    def special(g, call, method):
+        """the callee as this call site sees it: parameters that receive a literal replaced by it (`getattr(reac, bound)` with
+        bound = "temp_min" is `reac.temp_min`), so that the text and the conditions inside are read with the names they have here"""
+        ps = [a.arg for a in g.args.args]
+        if method and not any(ast.unparse(d) == "staticmethod" for d in g.decorator_list):
+            ps = ps[1:]
+        lit = {p_: a for p_, a in zip(ps, call.args) if isinstance(a, ast.Constant)}
+        lit.update({k.arg: k.value for k in call.keywords if k.arg in ps and isinstance(k.value, ast.Constant)})
+        stored = {n.id for n in ast.walk(g) if isinstance(n, ast.Name) and isinstance(n.ctx, (ast.Store, ast.Del))}
+        lit = {k: v for k, v in lit.items() if k not in stored}
+        if not lit:
+            return g
+        g2 = copy.deepcopy(g)
+        g2.body = [_Subst(dict(lit)).visit(st) for st in g2.body]
+        handed_on.update(id(v) for v in lit.values())
+        return const_getattr(g2)
+    handed_on = set()          # literal arguments accounted for inside the specialised callee
+    scope, todo = [], [root]
+    while todo and len(scope) < 40:
+        f = todo.pop()
+        if any(f is g for g in scope):
+            continue
+        scope.append(f)
+        for c in ast.walk(f):
+            if not isinstance(c, ast.Call):
+                continue
+            fn_ = c.func
+            if isinstance(fn_, ast.Attribute) and isinstance(fn_.value, ast.Name) and fn_.value.id in ("self", "cls", "TemplateLoader"):
+                g = pkg.resolve("TemplateLoader", fn_.attr)[1]
+                if g is not None:
+                    todo.append(special(g, c, True))
+            elif isinstance(fn_, ast.Name) and (TLOADER, fn_.id) in pkg.functions:
+                todo.append(special(pkg.functions[(TLOADER, fn_.id)], c, False))
+            elif isinstance(fn_, ast.Name) and fn_.id in mclasses:
+                todo += [m for m in mclasses[fn_.id].body if isinstance(m, ast.FunctionDef)]
+    # what a thermal process is: constants / constructor parameters its __init__ stores, and the instances of the package
+    tp = pkg.cls("ThermalProcess")
+    init = tp.methods.get("__init__")
+    fixed, fed, stores = {}, {}, {}
+    if init is not None:
+        ctx.saw(TPROC, "ThermalProcess.__init__")
+        for m in tp.methods.values():
+            for n in ast.walk(m):
+                if isinstance(n, ast.Attribute) and isinstance(n.ctx, ast.Store) and isinstance(n.value, ast.Name) and n.value.id == "self":
+                    stores[n.attr] = stores.get(n.attr, 0) + 1
+        params = [a.arg for a in init.args.args[1:]]
+        for st in init.body:
+            if isinstance(st, ast.Assign) and len(st.targets) == 1 and isinstance(st.targets[0], ast.Attribute) and isinstance(st.targets[0].value, ast.Name) \
+                    and st.targets[0].value.id == "self" and stores.get(st.targets[0].attr) == 1:
+                v = st.value
+                if isinstance(v, ast.UnaryOp) and isinstance(v.op, ast.USub) and isinstance(v.operand, ast.Constant):
+                    fixed[st.targets[0].attr] = -v.operand.value
+                elif isinstance(v, ast.Constant):
+                    fixed[st.targets[0].attr] = v.value
+                elif isinstance(v, ast.Name) and v.id in params:
+                    fed[st.targets[0].attr] = v.id
+    # ... or that the class body fixes (`temp_min = -1.0`) and no method stores
+    for a_, node_ in tp.attrs.items():
+        v = node_
+        if a_ not in fixed and a_ not in fed and not (init is not None and a_ in stores):
+            if isinstance(v, ast.UnaryOp) and isinstance(v.op, ast.USub) and isinstance(v.operand, ast.Constant):
+                fixed[a_] = -v.operand.value
+            elif isinstance(v, ast.Constant):
+                fixed[a_] = v.value
+    # attributes of thermal processes assigned from outside the class make their value unknown
+    outside = {n.attr for f_, m in pkg.modules.items() for n in ast.walk(m) if isinstance(n, ast.Attribute) and isinstance(n.ctx, ast.Store)
+               and not (isinstance(n.value, ast.Name) and n.value.id == "self") and n.attr in set(fixed) | set(fed)}
+    instances = []
+    if fed and init is not None:
+        defaults = dict(zip([a.arg for a in init.args.args][len(init.args.args) - len(init.args.defaults):], init.args.defaults))
+        for f_, m in pkg.modules.items():
+            for c in ast.walk(m):
+                if isinstance(c, ast.Call) and ast.unparse(c.func).split(".")[-1] == "ThermalProcess":
+                    given = dict(zip(params, c.args))
+                    given.update({k.arg: k.value for k in c.keywords if k.arg})
+                    vals = {}
+                    for attr, p_ in fed.items():
+                        e = given.get(p_, defaults.get(p_))
+                        if isinstance(e, ast.UnaryOp) and isinstance(e.op, ast.USub) and isinstance(e.operand, ast.Constant):
+                            vals[attr] = -e.operand.value
+                        elif isinstance(e, ast.Constant):
+                            vals[attr] = e.value
+                    instances.append((f_, c.lineno, vals))
+    tdecl = {x.text for x in regs["ThermalProcess"]} | CMATH | protos | consts | {"y"}
+    # (should the thermal functions declare the reactions' symbols too, those are available there)
+    lists = []
+    for solver, rel, methods, funcs in SITES:
+        for fname in [f_ for f_ in funcs if f_ in ("EvalHeatingRates", "EvalCoolingRates")]:
+            sk = Skel(J.flatten(ctx.tree, rel, {"general.method": methods[0], "general.device": "cpu"}))
+            for it, off in sk.items_in(fname):
+                if it[0] == "for":
+                    base, fs = _source(sk.marks, it, it[2])
+                    if any(f_[0] == "collect_variable_items" and f_[1] and f_[1][0] == ("const", "params") for f_ in fs):
+                        lists.append(_terms(base))
+    if lists and all(t is not None and "reactions" in t for t in lists):
+        tdecl |= set(universal)
+    rdecl = set(universal) | CMATH | protos | consts | {"y", "k"}
+    parents = {}
+    n = 0
+    for f in scope:
+        for p_ in ast.walk(f):
+            for ch in ast.iter_child_nodes(p_):
+                parents[id(ch)] = p_
+        for node in ast.walk(f):
+            if not (isinstance(node, ast.Constant) and isinstance(node.value, str)):
+                continue
+            ids = [w for w in re.findall(r"[A-Za-z_]\w*", node.value) if w not in _C_WORDS]
+            if not ids or id(node) in handed_on:
+                continue
+            # where the text stands: not a docstring / message, and under which conditions
+            guards, x, skip = [], node, False
+            while id(x) in parents:
+                par = parents[id(x)]
+                if isinstance(par, ast.Expr) and par.value is x:
+                    skip = True       # docstring / bare string
+                if isinstance(par, (ast.Raise, ast.Assert)) or (isinstance(par, ast.Call) and ast.unparse(par.func).split(".")[0] in ("logging", "logger", "warnings", "print")):
+                    skip = True
+                if isinstance(par, ast.JoinedStr) and not any(v is x for v in par.values):
+                    skip = True       # a format spec
+                if isinstance(par, ast.FormattedValue):
+                    skip = True       # text inside a replacement field (a dict key, a separator argument)
+                if isinstance(par, ast.Call) and x is not par.func:
+                    # an argument: text only when handed to str.join / str.format / a list being built, or to a function of this scope
+                    fn_ = par.func
+                    local = (isinstance(fn_, ast.Attribute) and isinstance(fn_.value, ast.Name) and fn_.value.id in ("self", "cls", "TemplateLoader") and pkg.resolve("TemplateLoader", fn_.attr)[1] is not None) \
+                        or (isinstance(fn_, ast.Name) and ((TLOADER, fn_.id) in pkg.functions or fn_.id in mclasses))
+                    if not (local or (isinstance(fn_, ast.Attribute) and fn_.attr in ("join", "format", "append", "extend", "insert"))
+                            or (isinstance(fn_, ast.Name) and fn_.id in ("list", "tuple", "filter", "str"))):
+                        skip = True
+                if (isinstance(par, ast.Subscript) and x is par.slice) or (isinstance(par, ast.Compare)) or (isinstance(par, ast.Dict) and any(x is k for k in par.keys)):
+                    skip = True       # a key / an operand of a test
+                if isinstance(par, ast.IfExp) and x is not par.test:
+                    guards.append((par.test, x is par.body))
+                elif isinstance(par, ast.If) and x is not par.test:
+                    guards.append((par.test, any(x is b for b in par.body)))
+                elif isinstance(par, ast.comprehension) and x is not par.iter and x is not par.target:
+                    pass
+                elif isinstance(par, (ast.ListComp, ast.GeneratorExp, ast.SetComp, ast.DictComp)):
+                    for g in par.generators:
+                        guards += [(t, True) for t in g.ifs if t is not x]
+                x = par
+            if skip:
+                continue
+            is_text = isinstance(parents.get(id(node)), ast.JoinedStr)      # a literal part of an f-string: certainly output text
+            used = {a.attr for t, _ in guards for a in ast.walk(t) if isinstance(a, ast.Attribute)}
+            for w in ids:
+                n += 1
+                key = f"{f.name}:`{w}` in {node.value.strip()[:24]!r}"
+                where = (TLOADER, node.lineno)
+                if w not in rdecl:
+                    if is_text:
+                        regs.judge(ctx, False, "R11", key + ":reactions", where, f"`{w}` is written by the renderer into the rate statements of EvalRates but is not a symbol every reaction class registers")
+                    elif w not in tdecl:
+                        ctx.unrec("R11", key + ":reactions", where, f"the string {node.value[:30]!r} may be text the renderer writes around a rate; `{w}` is not a symbol every reaction class registers")
+                    continue
+                if w in tdecl:
+                    ctx.ok("R11", key, where, f"`{w}` is declared wherever the rate statements are pasted")
+                    continue
+                known = {a: v for a, v in fixed.items() if a not in outside}
+                if any(_tri(t, known) is (not pol) for t, pol in guards):
+                    ctx.ok("R11", key, where, f"`{w}` is written only under a condition no thermal process satisfies ({', '.join(f'{a} = {v}' for a, v in sorted(known.items()))})")
+                    continue
+                hit = None
+                decided = bool(instances) and not (set(fed) & outside)
+                for f_, ln, vals in instances:
+                    ts = [_tri(t, {**known, **vals}) for t, pol in guards]
+                    if guards and all(v is not None and v == pol for v, (t, pol) in zip(ts, guards)):
+                        hit = hit or (f_, ln, vals)
+                    elif not any(v is not None and v != pol for v, (t, pol) in zip(ts, guards)):
+                        decided = False
+                if hit is not None:
+                    hit = (hit[0], hit[1], {a: v for a, v in hit[2].items() if a in used})
+                if not is_text and (hit is not None or not guards):
+                    ctx.unrec("R11", key, where, f"the string {node.value[:30]!r} may be text the renderer writes around the rate of a thermal process, whose functions do not declare `{w}`")
+                elif hit is not None or not guards:
+                    ctx.bad("R11", key, where, f"the renderer writes `{w}` into the rate statements" + (f" of the thermal process built at {hit[0]}:{hit[1]} ({hit[2]})" if hit else " of every process") +
+                            f": EvalHeatingRates / EvalCoolingRates declare only what ThermalProcess registers ({sorted(x.text for x in regs['ThermalProcess'])}), `{w}` is undeclared there",
+                            expected="thermal processes without the renderer's temperature window (temp_min = temp_max = -1.0), or the symbol registered by ThermalProcess",
+                            found=f"{ast.unparse(guards[0][0])[:60]} holds for that process" if hit else "unconditional text")
+                elif decided:
+                    ctx.ok("R11", key, where, f"`{w}` is written only under a condition none of the {len(instances)} thermal processes of the package satisfies")
+                else:
+                    ctx.unrec("R11", key, where, f"`{w}` is written by the renderer under {[ast.unparse(t)[:50] for t, _ in guards]}: cannot tell whether a thermal process (whose functions do not declare `{w}`) can satisfy that")
+    ctx.floor("R11", "identifiers written by the renderer around a rate", n, 2)
 
 
 HH = "naunet/grains/hh93grain.py"
@@ -655,15 +1373,28 @@ def _r7(ctx, rm, pkg, regs):
     the symbol tables of all reactions are merged, so X is declared iff SOME instance registered it.  A registration that only
     some instances perform leaves X undeclared in a network made of the other instances while texts still mention it."""
     n = 0
+    from ..core import AnalysisError
     for cls in REACTION_CLASSES + GRAIN_CLASSES + ["ThermalProcess"]:
         byname = {}
         for r in rm.registry(cls):
             if r["cls"] != cls or r["loops"] or r["op"] != "register" or r["name"][0] != "const":
                 continue
             byname.setdefault(r["name"][1], []).append(r)
+        # a guard whose other arm RAISES restricts nothing: no instance exists on that path (guard clauses `if bad: raise ..`)
+        refusing = set()
+        dc, init = pkg.resolve(cls, "__init__")
+        if init is not None and dc == cls and any(r["guards"] for rs in byname.values() for r in rs):
+            try:
+                init = pkg.expanded(dc, "__init__", keep=("register", "unregister"))
+            except AnalysisError:
+                pass
+            for f in Flow(init, pkg.cls(dc).file, consts=rm.module_consts(pkg.cls(dc).file)).facts:
+                if f.kind == "raise" and f.guards:
+                    c_, p_ = f.guards[-1]
+                    refusing.add((simp(c_), not bool(p_)))
         for name, rs in byname.items():
             n += 1
-            gs = [tuple((simp(c), bool(p)) for c, p in r["guards"]) for r in rs]
+            gs = [tuple(g for g in ((simp(c), bool(p)) for c, p in r["guards"]) if g not in refusing) for r in rs]
             key = f"{cls}.__init__:register({name!r}):every instance"
             where = (rs[0]["file"], rs[0]["line"])
             if _exhaustive(gs):
@@ -681,7 +1412,10 @@ def _r7(ctx, rm, pkg, regs):
                         ids = set(re.findall(r"[A-Za-z_]\w*", text))
                     if sym.text in ids or (sym.param and any(i.startswith(sym.base) for i in ids)):
                         users.append(f"{c2}: {label}")
-            if users:
+            if users and len(rs) > 1:
+                # several registrations of the name under conditions that are not visibly complementary: cannot tell whether some path misses it
+                ctx.unrec("R7", key, where, f"`{sym.text}` is registered on {len(rs)} paths under conditions that are not seen to cover every instance")
+            elif users:
                 ctx.bad("R7", key, where, f"`{sym.text}` is registered only when {guard}; a network whose {cls} instances never satisfy that leaves it undeclared, yet it is referenced by "
                         f"{sorted(set(users))[:4]}", expected="unconditional registration (or both arms of the condition register the name)", found=f"guard: {guard}")
             else:
@@ -712,7 +1446,66 @@ MUTANTS = [
         {"file": RR, "old": '        self.register("photon_desorption_option", (f"opt_uvd{group}", 1.0, vt.param))\n        self.register("H2_desorption_option", (f"opt_h2d{group}", 1.0, vt.param))\n', "new": '        for name, stem, default in self._switches:\n            self.register(name, (f"{stem}{group}", default, vt.param))\n'},
         {"file": RR, "old": '    model = "rr07"\n', "new": '    model = "rr07"\n    _switches = (("photon_desorption_option", "opt_uvd", 1.0),)\n'}], "rules": ["R1"]},
 ]
+TL = "naunet/templateloader.py"
+_DERIVEDS_LOOP = '    {% set components = network.reactions + network.grains -%}\n    {% for key, value in components | collect_variable_items("deriveds") -%}\n'
+
+
+def _pruned_by_use(when):
+    """EvalRates declares only the derived quantities named in ode.used, a set of identifiers taken from the rate statements
+    `when` = "before" / "after" the rate_modifier overrides are written into them"""
+    take = "        used = set(__import__('re').findall(r'[A-Za-z_]\\w*', ' '.join(rateeqns)))\n"
+    loop = '        for idx, reac in enumerate(reactions):\n            for key, value in rate_modifier.items():\n                if key == reac.idxfromfile:\n                    logging.warning(f"Overwirte the rate of: `{reac}` with {value}")\n                    rateeqns[idx] = f"{rate_sym}[{idx}] = {value};"\n'
+    return [
+        {"file": TL, "old": "        jac: TemplateLoader.Jacobian\n\n    @dataclass\n    class RenormContent:", "new": "        jac: TemplateLoader.Jacobian\n        used: set = None\n\n    @dataclass\n    class RenormContent:"},
+        {"file": TL, "old": loop, "new": (take + loop) if when == "before" else (loop + take)},
+        {"file": TL, "old": "        return self.ODEContent(rateeqns, hrateeqns, crateeqns, fex, jac)", "new": "        return self.ODEContent(rateeqns, hrateeqns, crateeqns, fex, jac, used)"},
+        {"file": RATES, "old": _DERIVEDS_LOOP, "new": _DERIVEDS_LOOP.replace('("deriveds") -%}', '("deriveds") | only_used(ode.used) -%}')},
+    ]
+
+
+MUTANTS += [
+    # R10: declarations dropped by a built-in selection
+    {"name": "deriveds-loop-selects", "file": RATES, "old": _DERIVEDS_LOOP, "new": _DERIVEDS_LOOP.replace('("deriveds") -%}', '("deriveds") | selectattr(1) -%}'), "rules": ["R10"]},
+    {"name": "params-loop-conditional", "file": FEX, "old": '    {% for key, _ in components | collect_variable_items("params") -%}\n', "new": '    {% for key, _ in components | collect_variable_items("params") if key != "mu" -%}\n', "count": 2, "rules": ["R10"]},
+    # R10: declarations pruned by the symbols the rate statements use, collected BEFORE the rate_modifier overrides are written
+    {"name": "deriveds-pruned-by-stale-use-set", "edits": _pruned_by_use("before"), "rules": ["R10"]},
+]
+MUTANTS += [
+    # R11: a cooling process with a temperature window -- the renderer's `if (Tgas>=..)` lands in EvalCoolingRates, which has no Tgas
+    {"name": "thermal-process-with-temperature-window", "edits": [
+        {"file": TPROC, "old": "        rate: str,\n    ) -> None:", "new": "        rate: str,\n        temp_min: float = -1.0,\n    ) -> None:"},
+        {"file": TPROC, "old": "        self.temp_min = -1.0\n", "new": "        self.temp_min = temp_min\n"},
+        {"file": TPROC, "old": 'HeIIRecombinationCooling = ThermalProcess(["He+", "e-"], "1.55e-26 * pow(Temp, 0.3647)")', "new": 'HeIIRecombinationCooling = ThermalProcess(["He+", "e-"], "1.55e-26 * pow(Temp, 0.3647)", temp_min=10.0)'}], "rules": ["R11"]},
+    {"name": "thermal-process-window-constant-on", "file": TPROC, "old": "        self.temp_max = -1.0\n", "new": "        self.temp_max = 1.0e9\n", "rules": ["R11"]},
+    {"name": "renderer-window-on-dust-temperature", "file": TLOADER, "old": 'f"Tgas<{r.temp_max}" if r.temp_max > 0', "new": 'f"Tdust<{r.temp_max}" if r.temp_max > 0', "rules": ["R11"]},
+]
+JAC = "naunet/templates/cvode/src/naunet_jac.cpp.j2"
+_EVALRATES_LOOPS = ('    {% set components = network.reactions + network.grains -%}\n    {% for key, _ in components | collect_variable_items("params") -%}\n        realtype {{ key }} = u_data->{{ key }};\n    {% endfor %}\n\n'
+                    '    {% set components = network.reactions + network.grains -%}\n    {% for key, value in components | collect_variable_items("deriveds") -%}\n        realtype {{ key }} = {{ value }};\n    {% endfor %}\n')
+_DECL_MACROS = ('{% macro declare_params(components, ctype="realtype", indent=4) -%}\n{% for name, _ in components | collect_variable_items("params") -%}\n{{ " " * indent }}{{ ctype }} {{ name }} = u_data->{{ name }};\n{% endfor %}\n{%- endmacro %}\n'
+                '{% macro declare_deriveds(components, ctype="realtype", indent=4) -%}\n{% for name, expr in components | collect_variable_items("deriveds") -%}\n{{ " " * indent }}{{ ctype }} {{ name }} = {{ expr }};\n{% endfor %}\n{%- endmacro %}\n'
+                '{% macro declare_locals(components, ctype="realtype", indent=4) -%}\n{{ declare_params(components, ctype, indent) }}\n{{ declare_deriveds(components, ctype, indent) }}\n{%- endmacro %}\n')
+MUTANTS += [
+    {"name": "physics-helper-only-for-networks-with-ice", "file": PHYS_H, "old": "{{ spec }}double GetMantleDens(double *y);\n",
+     "new": '{% if network.species | selectattr("is_surface") | list %}\n{{ spec }}double GetMantleDens(double *y);\n{% endif %}\n', "rules": ["R2"]},
+    {"name": "jacobian-declares-grains-before-reactions", "file": JAC, "old": "{% set components = network.reactions + network.grains + network.heating + network.cooling -%}",
+     "new": "{% set components = network.grains + network.reactions + network.heating + network.cooling -%}", "count": 6, "rules": ["R5"]},
+]
 BENIGN = [
+    {"name": "declarations-through-nested-macros", "edits": [
+        {"file": RATES, "old": _EVALRATES_LOOPS, "new": "{{ declare_locals(network.reactions + network.grains) }}\n"},
+        {"file": RATES, "old": '{% if general.device == "gpu" -%} __device__ {% endif -%}\nint EvalRates(', "new": _DECL_MACROS + '{% if general.device == "gpu" -%} __device__ {% endif -%}\nint EvalRates('}]},
+    {"name": "init-guard-clause-raises", "file": "naunet/reactions/uclchemreaction.py", "old": '        super().__init__(react_string=react_string)\n\n        self.register("ism_cosmic_ray_ionization_rate", ("zism", 1.3e-17, vt.constant))\n',
+     "new": '        super().__init__(react_string=react_string)\n        if self.reaction_type is None:\n            raise ValueError("reaction type not set")\n\n        self.register("ism_cosmic_ray_ionization_rate", ("zism", 1.3e-17, vt.constant))\n'},
+    {"name": "thermal-process-window-parameters-unused", "edits": [
+        {"file": TPROC, "old": "        rate: str,\n    ) -> None:", "new": "        rate: str,\n        temp_min: float = -1.0,\n    ) -> None:"},
+        {"file": TPROC, "old": "        self.temp_min = -1.0\n", "new": "        self.temp_min = temp_min\n"}]},
+    {"name": "thermal-process-window-as-class-attributes", "edits": [
+        {"file": TPROC, "old": "        self.temp_min = -1.0\n        self.temp_max = -1.0\n", "new": ""},
+        {"file": TPROC, "old": "class ThermalProcess(Component):\n", "new": "class ThermalProcess(Component):\n    temp_min = -1.0\n    temp_max = -1.0\n\n"}]},
+    {"name": "renderer-windows-in-helper", "edits": [
+        {"file": TLOADER, "old": '        ltranges = [f"Tgas>={r.temp_min}" if r.temp_min > 0 else "" for r in reactions]\n', "new": '        ltranges = [self._lower_bound(r) for r in reactions]\n'},
+        {"file": TLOADER, "old": "    def _assign_rates(\n", "new": '    def _lower_bound(self, r):\n        if r.temp_min > 0:\n            return f"Tgas>={r.temp_min}"\n        return ""\n\n    def _assign_rates(\n'}]},
     {"name": "component-list-variable-renamed", "file": RATES, "old": "components", "new": "providers", "count": 12},
     {"name": "component-list-inlined", "file": RATES, "old": "    {% set components = network.reactions + network.grains -%}\n    {% for key, _ in components | collect_variable_items(\"params\") -%}", "new": "    {% for key, _ in (network.reactions + network.grains) | collect_variable_items(\"params\") -%}"},
     {"name": "leeds-register-in-both-arms", "file": "naunet/reactions/leedsreaction.py", "old": '        self.register("radiation_field", ("G0", 1.0, vt.param))\n', "new": '        if self.rtype == 4:\n            self.register("radiation_field", ("G0", 1.0, vt.param))\n        else:\n            self.register("radiation_field", ("G0", 1.0, vt.param))\n'},
